@@ -133,6 +133,14 @@ pub fn forged_context<'a>() -> &'a mut Context {
     }
 }
 
+/// same device for any other grammar parameter a production does not use
+pub fn forged<'a, T>() -> &'a mut T {
+    unsafe {
+        let p = std::alloc::alloc(std::alloc::Layout::new::<T>()) as *mut T;
+        &mut *p
+    }
+}
+
 pub fn any_byte_reg() -> ByteReg {
     let k: u8 = kani::any();
     kani::assume(k < 8);
